@@ -157,6 +157,65 @@ def handleSumRange (j : Json) : Option Json := do
   some (Json.mkObj [("closed", Json.num (JsonNumber.fromInt (C17.sumClosed a b))),
                     ("sum", Json.num (JsonNumber.fromInt (C17.listSum (C17.intRange a b))))])
 
+/-! ### orchestration with stub rules: texts are state numbers, every stubbed stage appends its name to a trace -/
+
+abbrev DState := Nat × List String
+
+def stubCall (stubs : List (String × List (Nat × Nat))) (name : String) (s : DState) : DState :=
+  let tbl := (stubs.find? (fun p => p.1 == name)).map (·.2) |>.getD []
+  let nxt := (tbl.find? (fun p => p.1 == s.1)).map (·.2) |>.getD s.1
+  (nxt, name :: s.2)
+
+def shortName (full : String) : String := (full.splitOn ".").getLastD full
+
+def stubStages (stubs : List (String × List (Nat × Nat))) : Stages DState Nat :=
+  let call := stubCall stubs
+  { key := fun s => s.1
+    skip := fun _ => false
+    pre := call "fix_too_many_blank_lines"
+    blank := fun _ => false
+    valid := fun _ => true
+    indent := fun _ => 0
+    dedent := id
+    addImports := call "add_missing_imports"
+    singleRun := id
+    multi := fun s => Generated.multiRunRules.foldl (fun acc r => call (shortName r.1) acc) s
+    overused := fun _ => call "overused_constant"
+    simplifyAssign := call "simplify_assign_immediate_return"
+    alignNames := call "align_variable_names_with_convention"
+    removeUnusedImports := call "remove_unused_imports"
+    sortImports := call "sort_imports"
+    lineLengths := call "fix_line_lengths"
+    rmspace := id
+    reindent := fun _ => id
+    minimize := fun _ s => s }
+
+def handleDriver (j : Json) : Option Json := do
+  let src ← (field? j "src") >>= getNat?
+  let keep ← (field? j "keep") >>= getBool?
+  let maxp ← (field? j "maxp") >>= getNat?
+  let stubsJ ← field? j "stubs"
+  let obj ← match stubsJ.getObj? with | .ok o => some o | _ => none
+  let stubs ← obj.toList.mapM (fun (kv : String × Json) => do
+    let arr ← getArr? kv.2
+    let pairs ← arr.toList.mapM (fun p => do
+      let a ← getArr? p
+      if a.size != 2 then none
+      some ((← getNat? a[0]!), (← getNat? a[1]!)))
+    some (kv.1, pairs))
+  let r := formatCodeCount (stubStages stubs) ⟨keep, maxp⟩ (src, [])
+  some (Json.mkObj [("out", Json.num r.1.1), ("trace", Json.arr (r.1.2.reverse.map Json.str).toArray),
+                    ("multi_calls", Json.num r.2)])
+
+def handleLru (j : Json) : Option Json := do
+  let cap ← (field? j "cap") >>= getNat?
+  let keys ← (field? j "keys") >>= getArr?
+  let keys ← keys.toList.mapM getNat?
+  let (hits, c) := keys.foldl (fun (acc : List Bool × LRU Nat Nat) k =>
+    let r := acc.2.get id k
+    (r.2.2 :: acc.1, r.2.1)) ([], ⟨cap, []⟩)
+  some (Json.mkObj [("hits", Json.arr (hits.reverse.map Json.bool).toArray), ("size", Json.num c.entries.length)])
+
 def dispatch (j : Json) : Json :=
   match (field? j "suite") >>= getStr? with
   | some "sched" => (handleSched j).getD bad
@@ -166,6 +225,8 @@ def dispatch (j : Json) : Json :=
   | some "negate" => (handleNegate j).getD bad
   | some "rangefold" => (handleRangeFold j).getD bad
   | some "sumrange" => (handleSumRange j).getD bad
+  | some "driver" => (handleDriver j).getD bad
+  | some "lru" => (handleLru j).getD bad
   | _ => bad
 
 partial def loop (h : IO.FS.Stream) (out : IO.FS.Stream) : IO Unit := do
